@@ -237,6 +237,14 @@ Section Curly.
     destruct H as [|c2 d2 l l' H2 H]; [reflexivity|].
     rewrite <- (Rc_ceqr 48 c0 d0 eq_refl eq_refl H0), <- (Rc_is_x c1 d1 H1), <- (Rc_hexdigit c2 d2 H2). reflexivity.
   Qed.
+  Lemma q_url_congr_c s s' : Forall2 Rc s s' -> q_url s' = q_url s.
+  Proof.
+    intros H. unfold q_url.
+    destruct H as [|c0 d0 l l' H0 H]; [reflexivity|]. destruct H as [|c1 d1 l l' H1 H]; [reflexivity|].
+    destruct H as [|c2 d2 l l' H2 H]; [reflexivity|].
+    rewrite (Rc_ceqr 58 c0 d0 eq_refl eq_refl H0), (Rc_ceqr 47 c1 d1 eq_refl eq_refl H1),
+      (Rc_ceqr 47 c2 d2 eq_refl eq_refl H2). reflexivity.
+  Qed.
   Lemma start_ok_congr_c p p' : orel_c p p' -> start_ok u p' = start_ok u p.
   Proof.
     destruct p as [a|]; destruct p' as [c|]; cbn [orel_c start_ok]; try contradiction; [|reflexivity].
@@ -249,7 +257,8 @@ Section Curly.
     cbn [ctx_ok3]. unfold q_here.
     pose proof (IH (Some a) (Some c) Hac) as E0. pose proof (q_plural_congr_c _ _ HF) as E1.
     pose proof (q_apos_congr_c _ _ HF) as E2. pose proof (q_hex_congr_c _ _ HF) as E3.
-    unfold text, char in *. rewrite E0, (start_ok_congr_c p p' Ho), E1, E2, E3. reflexivity.
+    pose proof (q_url_congr_c _ _ HF) as E4.
+    unfold text, char in *. rewrite E0, (start_ok_congr_c p p' Ho), E1, E2, E3, E4. reflexivity.
   Qed.
 
   (* the class is closed under straightening an apostrophe, provided ' is a character of the class *)
